@@ -1,4 +1,347 @@
-import ZtypV.Spec
+/-
+C04 — Typed mutations behave like a plain value model.
+
+"For every sequence of typed mutations (set element/field, append, pop, set bit, change union
+option), applied directly or through nested sub-views obtained from a parent view, the root view
+stays observationally identical to a plain in-memory value subjected to the same operations:
+same hash-tree-root, same serialization, same lengths and same element reads.  Out-of-range
+indices, appends beyond the limit and pops of an empty collection are reported as errors and
+leave the value unchanged."
+
+Model side: `ZtypV.Sim.stepM` (Model/Sim.lean) — the object machine of Model P: view objects
+(type, backing tree, optional hook = (parent object, slot)), the Go mutators `Set / Append / Pop /
+Change` (Model/Machine.lean `Mut.*`) and `SetBacking` with hook propagation (`setBacking`).
+Spec side: `ZtypV.Sim.stepV` — the plain value machine (a value per handle, write-back into the
+parent's slot).  The correspondence driver (Driver/OpsHist.lean) executes exactly these two
+functions next to the real library on every run.
+
+Result.  For EVERY hash function `h`, from `Sim`-related stores (Proofs/RepSimBase.lean: every
+object's backing tree represents, `Rep`, its own typed value; hooks point to earlier complex
+series / containers whose slot type is the object's type; all types `TyGood`) every operation
+whose arguments are well-formed (`OpOk`: the new element has the slot's type; `Change` gets a
+`uint8` selector and a nil value exactly for the `None` option) yields the SAME OUTPUT on both
+machines and `Sim`-related stores again — `C04_step`, for every constructor of `Op`; hence equal
+output lists for every finite history — `C04_run`.  The outputs of `obs` are (hash-tree-root,
+serialization, value read through the typed getters), of `len` / `rd` / `blen` the length, the
+element read and `ValueByteLength`; errors are outputs too (`err`), never panics.
+
+`TyGood t` = `t.wf ∧ View.inRange t ∧ noBoolSeries t` (inherited by element / field / option types):
+  * `noBoolSeries` — known finding D3 (`Vector/List` of `boolean` are built as complex series,
+    so their `hash_tree_root` differs from the spec): without it `obs` differs;
+  * `inRange` — depth < 64 / limits < 2^64 (the `uint64` generalized indices).
+`OpOk` for `obs`: `Serialize` panics on offsets ≥ 2^32 (C02 side condition), so the observed
+object must satisfy `ObsOk`: its type writes no offsets, or `TySmall` (`t.maxSize < 2^32`, then
+every encoding is short by `C15_sound`), or the byte length the view reports is < 2^32.  (The
+size bound is deliberately not part of `TyGood`: the harness uses list limits up to 2^40.)
+`OpOk` for `Change`: Go's `UnionView.Change` does not check that a nil value is passed exactly
+for the `None` option (known findings `RepMut.change_none_slot_accepts_value`,
+`RepMut.change_typed_slot_accepts_nil`); the harness never generates such calls.
+`opOkB` (Proofs/RepSim.lean) is an executable, sound check of `OpOk`.
+
+No mismatch between the two machines was found under these hypotheses.
+-/
+import ZtypV.Proofs.RepSim
+import ZtypV.Proofs.SerInj
 namespace ZtypV.Props.C04
-theorem placeholder : True := trivial
+open ZtypV ZtypV.View ZtypV.Sim
+
+/-! ### one step -/
+
+/-- **C04 (one operation).**  From related stores, every operation with well-formed arguments
+    gives the same output on the object machine and on the value machine, and related stores. -/
+theorem C04_step (h : HashFn) {ms : Store} {vs : VStore} (op : Op) (hs : ZtypV.Sim h ms vs)
+    (hok : OpOk ms op) :
+    (stepM h ms op).2 = (stepV h vs op).2 ∧ ZtypV.Sim h (stepM h ms op).1 (stepV h vs op).1 := by
+  cases op with
+  | get p i => exact step_get h hs p i
+  | val p => exact step_val h hs p
+  | copy s => exact step_copy h hs s
+  | set id i x => exact step_set h hs id i x hok
+  | setv id i s => exact step_setv h hs id i s hok
+  | app id x => exact step_app h hs id x hok
+  | pop id => exact step_pop h hs id
+  | chg id sel x => exact step_chg h hs id sel x hok
+  | obs id => exact step_obs h hs id hok
+  | len id => exact step_len h hs id
+  | rd id i => exact step_rd h hs id i
+  | blen id => exact step_blen h hs id
+  | appd id => exact step_appd h hs id
+  | setd id i => exact step_setd h hs id i
+  | appv id s => exact step_appv h hs id s hok
+
+/-- the propagation lemma behind every mutation: `SetBacking` through the hook chain against the
+    recursive write-back, with agreeing success / (non-panic) failure -/
+theorem C04_propagation (h : HashFn) (ms : Store) (vs : VStore) (id : Nat) (o : VObj) (vo : VObjV)
+    (b : Node) (nv : Val) (hs : ZtypV.Sim h ms vs) (hm : ms[id]? = some o) (hv : vs[id]? = some vo)
+    (hr : Rep h o.ty nv b) (ht : hasType o.ty nv = true) :
+    ZtypV.Sim h (setBacking h (ms.size + 1) ms id b).1
+        (writeBack (vs.size + 1) (vs.set! id { vo with val := nv }) id).1 ∧
+      PropOut (setBacking h (ms.size + 1) ms id b).2
+        (writeBack (vs.size + 1) (vs.set! id { vo with val := nv }) id).2 := by
+  rw [← hs.1]
+  exact propagate h (ms.size + 1) ms vs id o vo b nv hs hm hv (by have := lookup_lt hm; omega) hr ht
+
+/-- **C04 (observational identity, spelled out).**  In related stores every view object — root
+    or retained sub-view — shows exactly its plain value: same hash-tree-root, same
+    serialization, same value through the typed getters, same byte length. -/
+theorem C04_observation (h : HashFn) {ms : Store} {vs : VStore} (hs : ZtypV.Sim h ms vs) {id : Nat}
+    {o : VObj} {vo : VObjV} (hm : ms[id]? = some o) (hv : vs[id]? = some vo) :
+    o.ty = vo.ty ∧ o.node.root h = htr h vo.ty vo.val ∧ viewVal o.ty o.node = .ok vo.val ∧
+    valueByteLength o.ty o.node = .ok (serialize vo.ty vo.val).length ∧
+    (ObsOk o → serializeView o.ty o.node = .ok (serialize vo.ty vo.val)) := by
+  obtain ⟨vo', hv', hrel, _⟩ := hs.lookup hm
+  rw [hv] at hv'; cases hv'
+  have hg := hrel.good
+  rw [hrel.ty_eq]
+  refine ⟨rfl, rep_root h hg.wf hg.noBool hrel.typed hrel.rep,
+    rep_getters h hg.wf hg.inRange hrel.typed hrel.rep,
+    rep_len h hg.wf hg.inRange hrel.typed hrel.rep, fun hok => ?_⟩
+  refine rep_ser_sizeOk h hg.wf hg.inRange hrel.typed ?_ hrel.rep
+  rcases hok with h1 | h1 | ⟨n, hn, hlt⟩
+  · exact Or.inl h1
+  · exact Or.inr (h1.serLt hrel.typed)
+  · rw [rep_len h hg.wf hg.inRange hrel.typed hrel.rep] at hn
+    cases hn
+    exact Or.inr hlt
+
+/-! ### whole histories -/
+
+/-- **C04 (every finite history).**  Mutations interleaved with reads and root requests: the list
+    of outputs of the object machine is the list of outputs of the value machine, and the final
+    stores are related. -/
+theorem C04_run (h : HashFn) : ∀ (ops : List Op) {ms : Store} {vs : VStore},
+    ZtypV.Sim h ms vs → OpsOk h ms ops →
+    runM h ms ops = runV h vs ops ∧ ZtypV.Sim h (finalM h ms ops) (finalV h vs ops)
+  | [], _, _, hs, _ => ⟨rfl, hs⟩
+  | op :: ops, ms, vs, hs, hok => by
+    obtain ⟨hout, hs'⟩ := C04_step h op hs hok.1
+    obtain ⟨hrest, hfin⟩ := C04_run h ops hs' hok.2
+    simp only [runM, runV, finalM, finalV]
+    exact ⟨by rw [hout, hrest], hfin⟩
+
+/-! ### initial states (and creation of further roots in the middle of a history) -/
+
+/-- the empty stores are related -/
+theorem C04_init_empty (h : HashFn) : ZtypV.Sim h #[] #[] :=
+  ⟨rfl, fun id o hm => by simp at hm⟩
+
+/-- a new detached root whose backing represents its value extends related stores -/
+theorem C04_mk_rep (h : HashFn) {ms : Store} {vs : VStore} (hs : ZtypV.Sim h ms vs) {t : Ty} {v : Val}
+    {n : Node} (hg : TyGood t) (hv : hasType t v = true) (hr : Rep h t v n) :
+    ZtypV.Sim h (ms.push { ty := t, node := n, hook := none })
+      (vs.push { ty := t, val := v, parent := none }) :=
+  hs.push ⟨rfl, rfl, hg, hv, hr⟩ (fun _ _ hp => by cases hp)
+
+/-- constructor route -/
+theorem C04_mk_construct (h : HashFn) {ms : Store} {vs : VStore} (hs : ZtypV.Sim h ms vs) {t : Ty}
+    {v : Val} {n : Node} (hg : TyGood t) (hv : hasType t v = true)
+    (hc : construct h t v = .ok n) :
+    ZtypV.Sim h (ms.push { ty := t, node := n, hook := none })
+      (vs.push { ty := t, val := v, parent := none }) :=
+  C04_mk_rep h hs hg hv (construct_rep h hg.wf hv hc)
+
+/-- default route -/
+theorem C04_mk_default (h : HashFn) {ms : Store} {vs : VStore} (hs : ZtypV.Sim h ms vs) {t : Ty}
+    {n : Node} (hg : TyGood t) (hd : defaultNode h t = .ok n) :
+    ZtypV.Sim h (ms.push { ty := t, node := n, hook := none })
+      (vs.push { ty := t, val := defaultVal t, parent := none }) :=
+  C04_mk_rep h hs hg (defaultVal_hasType t hg.wf) (default_rep h hg.wf hd)
+
+/-- deserialization route: decoding the encoding of `v` (shorter than 2^32 bytes) -/
+theorem C04_mk_decode (h : HashFn) {ms : Store} {vs : VStore} (hs : ZtypV.Sim h ms vs) {t : Ty}
+    {v : Val} {n : Node} (hg : TyGood t) (hv : hasType t v = true)
+    (hlen : (serialize t v).length < 2 ^ 32)
+    (hd : decodeTop h t (serialize t v) = .ok n) :
+    ZtypV.Sim h (ms.push { ty := t, node := n, hook := none })
+      (vs.push { ty := t, val := v, parent := none }) := by
+  obtain ⟨w, hw, hser, hc⟩ := DecodeProofs.decodeTop_sound h t (serialize t v) n (by
+    intro hl
+    have hf : t.isFixed = true := by cases t <;> first | rfl | simp [DecodeProofs.isLeafTy] at hl
+    have := Sizes.ser_bounds t v hv
+    have := Sizes.fixed_min_max t hf
+    omega) hd
+  have : w = v := (serialize_injective t v w hg.wf hv hw hlen hser.symm).symm
+  subst this
+  exact C04_mk_construct h hs hg hv hc
+
+/-- **initial state, constructor route**: one root built by the constructors -/
+theorem C04_init_construct (h : HashFn) {t : Ty} {v : Val} {n : Node} (hg : TyGood t)
+    (hv : hasType t v = true) (hc : construct h t v = .ok n) :
+    ZtypV.Sim h #[{ ty := t, node := n, hook := none }] #[{ ty := t, val := v, parent := none }] :=
+  C04_mk_construct h (C04_init_empty h) hg hv hc
+
+/-- **initial state, default route** -/
+theorem C04_init_default (h : HashFn) {t : Ty} {n : Node} (hg : TyGood t)
+    (hd : defaultNode h t = .ok n) :
+    ZtypV.Sim h #[{ ty := t, node := n, hook := none }]
+      #[{ ty := t, val := defaultVal t, parent := none }] :=
+  C04_mk_default h (C04_init_empty h) hg hd
+
+/-- **initial state, deserialization route** -/
+theorem C04_init_decode (h : HashFn) {t : Ty} {v : Val} {n : Node} (hg : TyGood t)
+    (hv : hasType t v = true) (hlen : (serialize t v).length < 2 ^ 32)
+    (hd : decodeTop h t (serialize t v) = .ok n) :
+    ZtypV.Sim h #[{ ty := t, node := n, hook := none }] #[{ ty := t, val := v, parent := none }] :=
+  C04_mk_decode h (C04_init_empty h) hg hv hlen hd
+
+/-- all three routes exist for every typed value of a good type -/
+theorem C04_init_exists (h : HashFn) {t : Ty} {v : Val} (hg : TyGood t) (hv : hasType t v = true) :
+    (∃ n, construct h t v = .ok n) ∧ (∃ n, defaultNode h t = .ok n) :=
+  ⟨construct_total h v t hg.wf hv,
+    (defaultNode_root h t hg.wf hg.noBool).imp fun _ hn => hn.1⟩
+
+/-! ### sub-types of good types are good -/
+
+theorem C04_good_elem_vector {e : Ty} {k : Nat} (hg : TyGood (.vector e k)) : TyGood e :=
+  hg.vector_elem
+theorem C04_good_elem_list {e : Ty} {lim : Nat} (hg : TyGood (.list e lim)) : TyGood e :=
+  hg.list_elem
+theorem C04_good_field {fs : List Ty} {i : Nat} {ft : Ty} (hg : TyGood (.container fs))
+    (hi : fs[i]? = some ft) : TyGood ft := hg.field hi
+theorem C04_good_option {hasNone : Bool} {opts : List Ty} {sel : Nat} {ot : Ty}
+    (hg : TyGood (.union hasNone opts)) (ho : unionOpt hasNone opts sel = some ot) : TyGood ot :=
+  hg.opt ho
+/-- the slot type of a hooked sub-view's parent, i.e. the type of every element the value model
+    can read (what `Get` opens a sub-view of) -/
+theorem C04_good_valElem {t : Ty} {v : Val} {i : Nat} {et : Ty} {x : Val} (hg : TyGood t)
+    (he : valElem t v i = some (et, x)) : TyGood et :=
+  hg.valElem he
+
+/-- a type all of whose encodings are shorter than 2^32 bytes can always be observed; so can
+    the sub-views opened on its elements / fields / options (`TySmall` is inherited, except by
+    the element type of a list with limit 0, which has no elements) -/
+theorem C04_small_obsOk {o : VObj} (hsm : TySmall o.ty) : ObsOk o := Or.inr (Or.inl hsm)
+theorem C04_small_elem_vector {e : Ty} {k : Nat} (hs : TySmall (.vector e k)) (hk : 0 < k) :
+    TySmall e := hs.vector_elem hk
+theorem C04_small_elem_list {e : Ty} {lim : Nat} (hs : TySmall (.list e lim)) (hl : 0 < lim) :
+    TySmall e := hs.list_elem hl
+theorem C04_small_field {fs : List Ty} {i : Nat} {ft : Ty} (hs : TySmall (.container fs))
+    (hi : fs[i]? = some ft) : TySmall ft := hs.field hi
+theorem C04_small_option {hasNone : Bool} {opts : List Ty} {sel : Nat} {ot : Ty}
+    (hs : TySmall (.union hasNone opts)) (ho : unionOpt hasNone opts sel = some ot) : TySmall ot :=
+  hs.opt ho
+
+/-! ### errors leave the value unchanged -/
+
+/-- **C04 (errors, value machine).**  A mutation of a ROOT handle (no parent) that is answered
+    with an error leaves the whole value store unchanged.  (For a sub-view handle an error can
+    also come from the write-back into a slot that no longer exists: then the handle keeps its
+    own new value and only the ancestors are unchanged — see `C04_propagation`.) -/
+theorem C04_errors_leave_value_unchanged (h : HashFn) (vs : VStore) (op : Op) (id : Nat) (vo : VObjV)
+    (ht : op.target = some id) (hv : vs[id]? = some vo) (hroot : vo.parent = none)
+    (herr : (stepV h vs op).2 = .err) : (stepV h vs op).1 = vs := by
+  rcases stepV_shape h vs op id ht with ⟨out, hout⟩ | ⟨f, hf⟩
+  · rw [hout]
+  · rw [hf] at herr ⊢
+    exact mutateV_root hv hroot f herr
+
+/-- **C04 (errors, view side).**  The same for the object machine: the erring mutation of a root
+    view leaves every view object — type, backing tree, hook — exactly as it was. -/
+theorem C04_errors_leave_view_unchanged (h : HashFn) (ms : Store) (op : Op) (id : Nat) (o : VObj)
+    (ht : op.target = some id) (hm : ms[id]? = some o) (hroot : o.hook = none)
+    (herr : (stepM h ms op).2 = .err) : (stepM h ms op).1 = ms := by
+  rcases stepM_shape h ms op id ht with ⟨out, hout⟩ | ⟨r, hr⟩
+  · rw [hout]
+  · rw [hr] at herr ⊢
+    exact mutateM_root h hm hroot r herr
+
+/-- … and the view errs exactly when the value model does (out-of-range index, append beyond the
+    limit, pop of an empty collection — whatever `valSet / valAppend / valPop / valChange`
+    refuse), in which case both stores are unchanged and still related. -/
+theorem C04_errors_agree (h : HashFn) {ms : Store} {vs : VStore} (op : Op) (id : Nat) (o : VObj)
+    (hs : ZtypV.Sim h ms vs) (hok : OpOk ms op) (ht : op.target = some id) (hm : ms[id]? = some o)
+    (hroot : o.hook = none) :
+    ((stepM h ms op).2 = .err ↔ (stepV h vs op).2 = .err) ∧
+    ((stepV h vs op).2 = .err → (stepM h ms op).1 = ms ∧ (stepV h vs op).1 = vs) := by
+  obtain ⟨hout, _⟩ := C04_step h op hs hok
+  obtain ⟨vo, hv, hrel, _⟩ := hs.lookup hm
+  refine ⟨by rw [hout], fun herr => ⟨?_, ?_⟩⟩
+  · exact C04_errors_leave_view_unchanged h ms op id o ht hm hroot (by rw [hout]; exact herr)
+  · exact C04_errors_leave_value_unchanged h vs op id vo ht hv (by rw [hrel.hook_eq]; exact hroot) herr
+
+/-! ### non-vacuity: concrete stores, concrete histories (hash `rvExH`, Proofs/RepView.lean) -/
+
+section Examples
+open ZtypV.C04Ex
+
+/-- `List[List[uint64,4],3]` holding `[[1,2]]`, built by the constructors, is a related pair -/
+theorem exSim : ZtypV.Sim rvExH exMs exVs := C04_init_construct rvExH exT_good exV_typed exN_eq
+
+/-- the 8-operation history with a retained, then stale, nested sub-view: `C04_run` applies -/
+example : runM rvExH exMs exOps = runV rvExH exVs exOps :=
+  (C04_run rvExH exOps exSim (opsOkB_sound rvExH exOps exMs exOps_ok)).1
+
+/-- what that history answers: the append through the stale sub-view and the out-of-range `Set`
+    are errors (on both machines, by the previous example) -/
+example : (runV rvExH exVs exOps).map (fun o => o == Out.err) =
+    [false, false, false, false, false, true, false, true] := by decide
+example : (runM rvExH exMs exOps).map (fun o => o == Out.err) =
+    [false, false, false, false, false, true, false, true] := by decide
+/-- … `len 0` answered 1 (the root held `[[1,2,3]]`), `rd 1 3` read the 4 the stale sub-view
+    kept; at the end the root is empty and the sub-view has four elements -/
+example : (runV rvExH exVs exOps).map (fun o => match o with
+      | .num n => some n | .val (.num n) => some n | _ => none) =
+    [none, none, none, some 1, none, none, some 4, none] := by decide
+example : (finalV rvExH exVs exOps).toList.map (fun o => match o.val with
+      | .seq vs => vs.length | _ => 99) = [0, 4] := by decide
+
+example := C04_observation rvExH exSim (id := 0) rfl rfl
+
+/-- one step, a nested mutation: `Append` through the sub-view created by `get 0 0` -/
+example : ZtypV.Sim rvExH (stepM rvExH exMs (.get 0 0)).1 (stepV rvExH exVs (.get 0 0)).1 :=
+  (C04_step rvExH (.get 0 0) exSim trivial).2
+example : (stepM rvExH (stepM rvExH exMs (.get 0 0)).1 (.app 1 (.num 3))).2 =
+    (stepV rvExH (stepV rvExH exVs (.get 0 0)).1 (.app 1 (.num 3))).2 :=
+  (C04_step rvExH (.app 1 (.num 3)) (C04_step rvExH (.get 0 0) exSim trivial).2
+    (opOkB_sound _ _ (by decide))).1
+
+/-- `List[uint64,4]` holding `[1,2]`: direct mutations of a root view with packed elements -/
+theorem exSim1 : ZtypV.Sim rvExH exMs1 exVs1 :=
+  C04_init_construct rvExH (by decide) (by decide) exN1_eq
+example : runM rvExH exMs1 exOps1 = runV rvExH exVs1 exOps1 :=
+  (C04_run rvExH exOps1 exSim1 (opsOkB_sound rvExH exOps1 exMs1 exOps1_ok)).1
+example : (runV rvExH exVs1 exOps1).map (fun o => o == Out.err) =
+    [false, false, false, false, true, false] := by decide
+
+/-- the erring mutation `set 0 7 …` of the root handle: hypotheses of the error
+    theorems are satisfiable, the stores are unchanged -/
+example : (stepV rvExH exVs (.set 0 7 (.seq []))).1 = exVs :=
+  C04_errors_leave_value_unchanged rvExH exVs (.set 0 7 (.seq [])) 0 _ rfl rfl rfl (by rfl)
+example : (stepM rvExH exMs (.set 0 7 (.seq []))).1 = exMs :=
+  (C04_errors_agree rvExH (.set 0 7 (.seq [])) 0 _ exSim (opOkB_sound _ _ (by decide)) rfl rfl rfl).2
+    (by rfl) |>.1
+
+/-- default and deserialization routes -/
+example : ∃ n, defaultNode rvExH exT = .ok n ∧
+    ZtypV.Sim rvExH #[{ ty := exT, node := n, hook := none }]
+      #[{ ty := exT, val := defaultVal exT, parent := none }] := by
+  obtain ⟨n, hn⟩ := (C04_init_exists rvExH exT_good exV_typed).2
+  exact ⟨n, hn, C04_init_default rvExH exT_good hn⟩
+example : ∃ n, decodeTop rvExH exT (serialize exT exV) = .ok n ∧
+    ZtypV.Sim rvExH #[{ ty := exT, node := n, hook := none }]
+      #[{ ty := exT, val := exV, parent := none }] :=
+  ⟨_, rfl, C04_init_decode rvExH exT_good exV_typed (by decide) rfl⟩
+
+/-- sub-types -/
+example : TyGood (.list (.uint 8) 4) := C04_good_elem_list exT_good
+example : TySmall (.list (.uint 8) 4) := C04_small_elem_list (e := .list (.uint 8) 4) (lim := 3) (by decide) (by decide)
+
+end Examples
+
 end ZtypV.Props.C04
+
+#print axioms ZtypV.Props.C04.C04_step
+#print axioms ZtypV.Props.C04.C04_propagation
+#print axioms ZtypV.Props.C04.C04_observation
+#print axioms ZtypV.Props.C04.C04_run
+#print axioms ZtypV.Props.C04.C04_init_construct
+#print axioms ZtypV.Props.C04.C04_init_default
+#print axioms ZtypV.Props.C04.C04_init_decode
+#print axioms ZtypV.Props.C04.C04_mk_construct
+#print axioms ZtypV.Props.C04.C04_mk_default
+#print axioms ZtypV.Props.C04.C04_mk_decode
+#print axioms ZtypV.Props.C04.C04_errors_leave_value_unchanged
+#print axioms ZtypV.Props.C04.C04_errors_leave_view_unchanged
+#print axioms ZtypV.Props.C04.C04_errors_agree
+#print axioms ZtypV.Props.C04.C04_good_valElem
+#print axioms ZtypV.opsOkB_sound
